@@ -501,6 +501,22 @@ def run_loopzip(rep, ctx, anchor, proof_adts, rule="R4c"):
                     roots = alias_roots(g, (b2, ca["pl"]["l"]), NOT_PROOF_LIST, LENGTH_PRESERVING)
                     if fld in roots:
                         idx_sites.append(tt["span"])
+            if not idx_sites:
+                # the built-in form: `slice[i]` is a place projection guarded by a bounds-check assert
+                for b2 in sorted(g.scope):
+                    body2 = f.bodies[b2]
+                    for (sp, pl) in _indexed_places(body2):
+                        if fld in alias_roots(g, (b2, pl["l"]), NOT_PROOF_LIST, LENGTH_PRESERVING):
+                            idx_sites.append(sp)
+                            break
+                    if idx_sites:
+                        break
+            if not idx_sites:
+                pins = [gs for gs in pinned_length_guards(g, anchor, field_lengths(g, fld), conds) if guard_dominates(g, gs, (bid, i), memo)]
+                if pins:
+                    rep.add(rule, key, True, "for loop over zip(%s, ..) at %s: the vector's length is pinned by the equality test "
+                            "at %s against a value that does not come from the proof" % (name, t["span"], where_of(f, *pins[0])), t["span"])
+                    continue
             if idx_sites:
                 rep.add(rule, key, True, "for loop over zip(%s, ..) at %s: the vector is also accessed by position at %s "
                         "(a short vector aborts there)" % (name, t["span"], idx_sites[0]), t["span"])
@@ -582,6 +598,94 @@ def run_positional(rep, ctx, anchor, rule="R4a"):
 
 # ---------------------------------------------------------------------------------------------------------
 # R4r: the number of rounds of an inner-product proof is pinned before the proof is used
+def _indexed_places(b):
+    """(span, place) for every place of the body that is indexed with a computed index (`v[i]` on a slice / array)."""
+    for blk in b.blocks:
+        if blk["cleanup"]:
+            continue
+        for st in blk["stmts"]:
+            rv = st["rv"]
+            pls = [st["dst"]]
+            if rv.get("pl"):
+                pls.append(rv["pl"])
+            pls += [o["pl"] for o in rv.get("ops", []) if o["k"] in ("copy", "move")]
+            for pl in pls:
+                if any(isinstance(e, dict) and "idx" in e for e in pl["p"]):
+                    yield st.get("span") or blk["term"].get("span"), pl
+        t = blk["term"]
+        if t["k"] == "call":
+            for a in t["args"]:
+                if a["k"] in ("copy", "move") and any(isinstance(e, dict) and "idx" in e for e in a["pl"]["p"]):
+                    yield t.get("span"), a["pl"]
+
+
+def field_lengths(g, src):
+    """everything computed from a length observation of the field node `src` (and of views of it) - of this vector,
+    not of its siblings in the same struct."""
+    lens = set()
+    for e in g.fwd.get(src, ()):
+        if e.kind == DATA and e.op in (SHAPE, "fieldshape") and e.dst != OUTCOME:
+            lens.add(e.dst)
+    lens |= shape_seeds(g, views(g, {src}))
+    return data_closure(g, lens, limit=400)
+
+
+def pinned_length_guards(g, anchor, lp, conds):
+    """branch sites whose condition comes from an equality-capable comparison of a length in `lp` (lengths of a proof
+    vector) with a value that is not derived from the proof; guards sitting in helpers are lifted to their call
+    sites."""
+    from .meet import comparison_sites
+    from ..flow import ALIAS
+    idx_p = anchor.roles.get("proof")
+    from_proof = {st[0] for st in g.reach([(anchor.body.id, idx_p)], typed=False, kinds=(DATA, ALIAS))} if idx_p is not None else set()
+    eqres = set()
+    for (cb, cblk, l, r, res, _sp) in comparison_sites(g, equality_only=True):
+        for (x, y) in ((l, r), (r, l)):
+            if any(n in lp for n in x) and y and not any(n in from_proof for n in y):
+                eqres |= data_closure(g, {res}, limit=200)
+    guards = [(gb, gi) for (gb, gi, c) in conds if c in eqres]
+    return guards + lifted_guards(g, guards, conds)
+
+
+def lifted_guards(g, guards, conds, depth=2):
+    """a guard that sits in a helper counts at the helper's call sites: when a refusing block of the helper (an `Err`,
+    a panic) is control dependent on the guard, the test made in the caller on the helper's result (`?`, `if !ok`)
+    stands for the guard."""
+    from .meet import _refusing_blocks
+    f = g.facts
+    out, cur = [], list(guards)
+    for _ in range(depth):
+        nxt = []
+        for (hb, hi) in cur:
+            h = f.bodies[hb]
+            if h.kind == "Closure":
+                continue
+            cd = h.control_deps()
+            refusing = _refusing_blocks(h)
+            tcd, st = set(), list(refusing)
+            while st:
+                x = st.pop()
+                for y in cd.get(x, ()):
+                    y = y[0] if isinstance(y, tuple) else y
+                    if y not in tcd:
+                        tcd.add(y)
+                        st.append(y)
+            if hi not in tcd:
+                continue
+            for bid in sorted(g.scope):
+                b = f.bodies[bid]
+                for i, t in b.calls():
+                    if hb not in f.call_targets(t, g.ctx_adt):
+                        continue
+                    res = data_closure(g, {(bid, t["dst"]["l"])}, limit=200)
+                    for (cb, ci, c) in conds:
+                        if cb == bid and c in res and b.dominates(i, ci) and (cb, ci) not in out:
+                            out.append((cb, ci))
+                            nxt.append((cb, ci))
+        cur = nxt
+    return out
+
+
 def run_rounds(rep, ctx, anchor, proof_adt, field, consumer_suffix, rule="R4r"):
     """every call of the succinct check (`consumer_suffix`) in the verifier's scope is dominated by a refusal whose
     condition comes from an equality-capable comparison of the length of `proof.<field>` with something that is not
@@ -595,23 +699,12 @@ def run_rounds(rep, ctx, anchor, proof_adt, field, consumer_suffix, rule="R4r"):
     if src not in g.fwd:
         rep.add(rule, "%s:rounds-pinned" % anchor.key, False, "%s.%s is never read (fail closed)" % (proof_adt, field), anchor.body.span)
         return 0
-    lens = set()
-    for e in g.fwd.get(src, ()):
-        if e.kind == DATA and e.op in (SHAPE, "fieldshape") and e.dst != OUTCOME:
-            lens.add(e.dst)
-    V = views(g, {src})
-    lens |= shape_seeds(g, V)
-    lp = data_closure(g, lens, limit=400)
+    lp = field_lengths(g, src)
     idx_p = anchor.roles.get("proof")
     from ..flow import ALIAS
     from_proof = {st[0] for st in g.reach([(anchor.body.id, idx_p)], typed=False, kinds=(DATA, ALIAS))} if idx_p is not None else set()
-    eqres = set()
-    for (cb, cblk, l, r, res, _sp) in comparison_sites(g, equality_only=True):
-        for (x, y) in ((l, r), (r, l)):
-            if any(n in lp for n in x) and y and not any(n in from_proof for n in y):
-                eqres |= data_closure(g, {res}, limit=200)
     conds = branch_conditions(g)
-    guards = [(gb, gi) for (gb, gi, c) in conds if c in eqres]
+    guards = pinned_length_guards(g, anchor, lp, conds)
     memo = {}
     sites = [(bid, i, t) for bid in sorted(g.scope) for i, t in f.bodies[bid].calls()
              if (t.get("callee") or "").endswith(consumer_suffix) or (t.get("resolved") or "").endswith(consumer_suffix)]
